@@ -24,7 +24,7 @@ prop(
     key=c08_key,
     rule="(nerrs,s,f,d,ignore-dropped,max-failures,max-failures-rate) tuples: corpus witnesses, boundary-heavy generator "
          "(100f = rate*total +-1, failures = max-failures +-1, zero runs), Result built directly and via recorded outcomes, "
-         "plus real CLI runs; non-trivial = no earlier disjunct fires and a failure rate is configured, so the rate clause decides; "
+         "plus real CLI runs; CLI runs with tolerances at the ends of their ranges and with scenario teardowns failing in every way; non-trivial = no earlier disjunct fires and a failure rate is configured, so the rate clause decides; "
          "distinct = distinct argument tuples",
     assumptions=["counts below 2^63/100 so that Go's uint64 products do not wrap (generator stays below 1e9)",
                  "Go harness, -overlay build and the add-only accessor internal/run/zz_verif_run_access.go",
@@ -103,7 +103,7 @@ prop(
     rule="(a) component stress: 1-32 goroutines drive the real ActiveScenario.Run / RecordDroppedIteration with random outcome plans (thousands of records each) "
          "while 1-3 goroutines loop Result.SnapshotProgress; then GetTotals; oracle = extracted predicate c01_ok on (plan counts, result totals, exported sample counts); "
          "(b) whole runs (users/constant/staged) with a goroutine forcing snapshots through the run's Result; (c) sequential op sequences of Stats.Record/Snapshot/Total "
-         "compared exactly with the sequential model; non-trivial = at least one snapshot ran concurrently with recorded iterations (a,b) / >= 2 snapshots in the sequence (c); distinct = distinct cases",
+         "compared exactly with the sequential model; the scenario logger rotates between f1's discard logger, one with every level enabled and one with no level enabled; failing bodies fail through Fail, FailNow, panics, Errorf and a testify assertion; non-trivial = at least one snapshot ran concurrently with recorded iterations (a,b) / >= 2 snapshots in the sequence (c); distinct = distinct cases",
     assumptions=["sync/atomic operations are sequentially consistent; one model step per atomic/lock operation",
                  "Result.mu serialises collectors (modelled as a lock); GetTotals runs after all iterations completed",
                  "prometheus SummaryVec.Observe increments the sample count atomically (modelled as one step)",
@@ -116,7 +116,7 @@ prop(
             dict(name="c17measured", pkg="c01", test="TestC17Measured", access=[RUN_ACCESS, WORKERS_ACCESS], timeout_quick=300, timeout_thorough=3000)],
     rule="single iterations on the real ActiveScenario whose body spends 0.3-3ms by its own clock and then ends by return, Fail, FailNow, Fatalf, a failed require or a panic: the recorded duration (min = max = mean) lies "
          "between the body's own time and the time the Run call took (predicate measured_ok, both one-sided); random sequences (0-60 ops, some 500-2000) of Stats.Record (success/fail/dropped/unknown; durations 1ns..1h) with Snapshot and Total anywhere "
-         "(leading, consecutive); every field of every snapshot compared exactly with the sequential model; non-trivial = >= 2 snapshots in the sequence; distinct = distinct op sequences",
+         "(leading, consecutive); every field of every snapshot compared exactly with the sequential model; c17measured also reads the exported iteration summary (count, sum) over two rounds on one metrics instance with a Reset between; non-trivial = >= 2 snapshots in the sequence; distinct = distinct op sequences",
     assumptions=["sequential use (one goroutine); durations positive and sums below 2^63"],
 )
 
@@ -130,7 +130,7 @@ prop(
     rule="generated scenario programs (cleanup tables of 0-5 cleanups that log, fail, panic or register; bodies/setups of 0-7 actions: register, Fail/Error/Errorf, "
          "FailNow/Fatal/Fatalf/require, panic with error/runtime error/string/int/struct, marks) executed (a) by the real ActiveScenario.Setup/Run on one worker handle, "
          "event log and per-iteration recorded outcome compared exactly with the model; (b) through whole Run.Do runs (users/constant x limit/duration/cancel) for the setup/teardown "
-         "lifecycle, plus a harness-side check that no body starts after the setup cleanups ran; non-trivial = a body that registers cleanups and then stops by FailNow/panic (a) / "
+         "lifecycle, plus a harness-side check that no body starts after the setup cleanups ran; (d) config files with a users or constant stage followed by a constant stage with iterations of 120-260 ms: nothing is in flight when the setup cleanups run nor at return; non-trivial = a body that registers cleanups and then stops by FailNow/panic (a) / "
          "a program with a non-empty cleanup table (b); distinct = distinct programs",
     assumptions=["scenario code follows the documented contract (FailNow only from the iteration goroutine, no runtime.Goexit)",
                  "recover() semantics of Go; runtime errors implement error",
@@ -163,10 +163,11 @@ prop(
     id="C16",
     stages=[dict(name="c16comp", pkg="c16", test="TestC16Component", access=[WORKERS_ACCESS, RUN_ACCESS], timeout_quick=300, timeout_thorough=3000),
             dict(name="c16runs", pkg="c16", test="TestC16Runs", access=[WORKERS_ACCESS, RUN_ACCESS], timeout_quick=300, timeout_thorough=3000),
-            dict(name="c16conc", pkg="c16", test="TestC16Concurrent", access=[WORKERS_ACCESS, RUN_ACCESS], timeout_quick=300, timeout_thorough=3000)],
+            dict(name="c16conc", pkg="c16", test="TestC16Concurrent", access=[WORKERS_ACCESS, RUN_ACCESS], timeout_quick=300, timeout_thorough=3000),
+            dict(name="c16push", pkg="c16", test="TestC16Push", access=[WORKERS_ACCESS, RUN_ACCESS], timeout_quick=300, timeout_thorough=3000)],
     rule="random static label maps (0-7 keys from a pool with colliding prefixes and case variants; values equal to other keys, empty, non-ASCII) on private registries; "
          "1-3 consecutive runs per instance with outcome mixes incl. drops and setup failures, (a) through the real ActiveScenario with the reset Run.Do performs, (b) through whole Run.Do runs, (c) 2-12 workers recording different outcomes at the same time on an instance with static labels; "
-         "Registry.Gather() canonicalised to (family, name/value pairs sorted by name, sample count) and compared exactly with the model; non-trivial = at least two static labels; distinct = distinct cases",
+         "Registry.Gather() canonicalised to (family, name/value pairs sorted by name, sample count) and compared exactly with the model; after every whole run the exported iteration metric is compared with that run's final result (bodies with failing cleanups included); stage c16push: runs against an in-process push gateway answering promptly or after up to 1.5 s (runs of 5.1-5.9 s ending during a periodic push): what the gateway holds = the final result; non-trivial = at least two static labels; distinct = distinct cases",
     assumptions=["prometheus client: WithLabelValues pairs the i-th value with the i-th declared label name; Reset drops all series; Observe adds one sample (modelled)",
                  "label maps have distinct keys (Go map)"],
 )
@@ -242,7 +243,7 @@ prop(
     rule="real raterun.Runner with 1-3 schedules (distinct frequencies 2-9ms, start delays 0-30ms), function durations 0-12ms, 0-2 Restarts at random instants, ending by Stop (75%) or by cancelling the context; "
          "in a third of the runs one invocation is held by the harness and Stop is called while it executes; the totally ordered event log (Start, FnStart k, FnEnd, Restart, StopCalled, StopReturned, Cancel) must be admissible "
          "for the extracted checker runner_trace_ok; harness-side: Stop must not return while the held invocation runs, goroutine-leak check after Stop/cancel, one-sided bound invocations <= elapsed/frequency + 2; extracted checker runner_times_ok: an invocation carrying schedule k's frequency never happens before Start + start delays up to k + one period of k (40% of the runs put a slow schedule behind a fast one with a function that overruns the fast ticks); "
-         "non-trivial = run with a Restart or a held invocation; distinct = distinct logs",
+         "schedule lists with the second schedule far behind the first and with two neighbouring schedules of the same frequency; exact timed checker runner_timed_ok on hook and function-start timestamps; non-trivial = run with a Restart or a held invocation; distinct = distinct logs",
     assumptions=["Go timers/tickers never fire early (one-sided timing only)", "select picks any ready case; channel/close semantics as modelled",
                  "premise of the model: the first schedule's StartDelay is shorter than the 1h placeholder ticker",
                  "Go's select picks uniformly among ready cases (a buffered Restart is taken within 60 passes except with probability < 1e-7)"],
@@ -282,7 +283,7 @@ prop(
     stages=[POOL_STAGE, GATE_STAGE, dict(name="c03runs", pkg="c02", test="TestC03Runs", access=[WORKERS_ACCESS, POOL_ACCESS, RUN_ACCESS], timeout_quick=300, timeout_thorough=3000)],
     rule="ids (T.Iteration) collected by the scenario in (a) the pool histories of C02 incl. limits 1-60 with 1-8 workers competing for the last ids, (b) whole runs in every trigger mode (constant, staged, ramp, gaussian, users, file with the limit "
          "falling inside one of three stages) with limits 1-400 and concurrency 1-100: sorted ids must be exactly k..1, k <= limit, k = limit when the limit ended the run; oracle = extracted predicate c03_ok; "
-         "non-trivial = limit-ended cases; distinct = distinct observations" + GATE_RULE,
+         "a third of the whole runs use a combined scenario whose value already went through a run in the process; non-trivial = limit-ended cases; distinct = distinct observations" + GATE_RULE,
     assumptions=["atomic.Uint64.Add is an atomic fetch-and-add", "a run that returns well before max-duration with a limit set was ended by the limit"],
 )
 
@@ -290,7 +291,7 @@ prop(
     id="C04",
     stages=[POOL_STAGE, GATE_STAGE, dict(name="c04runs", pkg="c02", test="TestC04Runs", access=[WORKERS_ACCESS, POOL_ACCESS, RUN_ACCESS], timeout_quick=300, timeout_thorough=3000)],
     rule="scenario-side atomic in-flight counter with high-water mark and a live set of *T pointers (duplicate insert = shared handle) in (a) the pool histories of C02, (b) whole runs of constant, staged, ramp, gaussian and users triggers "
-         "with concurrency 1-16 whose first iterations only return once `concurrency` of them overlap (rendezvous, 3s timeout = not all workers usable); oracle = extracted predicate c04_ok; non-trivial = rendezvous runs; distinct = distinct observations" + GATE_RULE,
+         "with concurrency 1-16 whose first iterations only return once `concurrency` of them overlap (rendezvous, 3s timeout = not all workers usable); oracle = extracted predicate c04_ok; config files of users stages only (long iterations) and of a users stage with its own concurrency followed by a saturated constant stage (per-stage in-flight by stage parameter); non-trivial = rendezvous runs; distinct = distinct observations" + GATE_RULE,
     assumptions=["in the model worker i owns handle i by construction; handle identity in the code is observed, not modelled", "file mode is outside the statement (consecutive stages' pools may overlap)"],
 )
 
@@ -329,7 +330,7 @@ prop(
          "(instant, sleeping, blocked until after the end, never finishing with a short completion timeout): returns within its bound (30s watchdog), no body starts after the return, every started body finished at the return "
          "unless the timeout expired, no start after the deadline (+60ms), goroutine-leak check; oracle = extracted predicate c05_ok; (a') the calls the progress reporter and Run.Do make on the shared Result while a run is triggering, replayed against each other 150000 (thorough 1.5 million) times: a recursive read lock would wedge them; (b) gate script on sources instrumented from the working tree: the progress runner is parked "
          "just before dispatching a due tick and released when main is between the nested read locks of the final rendering; the run must still return; the sync-op listing of the functions the run-level model covers is "
-         "compared with the committed one; non-trivial = anything but (instant bodies, max-duration); distinct = distinct observations",
+         "compared with the committed one; config files with 4 s stages and a small limit (limit only / then max-duration / then cancel): the run returns shortly after its last iteration; non-trivial = anything but (instant bodies, max-duration); distinct = distinct observations",
     assumptions=["sync.RWMutex is writer-preferring (a pending Lock blocks new RLocks), as documented", "Go timers never fire early; wall-clock punctuality is the runtime's (one-sided checks with slack)",
                  "the worker pool is an abstract 'all workers exited' event at run level; its own progress is C05_pool_progress",
                  "termination is shown as deadlock-freedom plus environment obligations, not by a ranking function"],
